@@ -44,6 +44,7 @@ class Check:
         self.not_decided: List[str] = []
         self.extra: Dict[str, Any] = {}
         self.selftest: Optional[Dict[str, Any]] = None
+        self.undecided_list: List[str] = []
 
     # rule registration -----------------------------------------------------
     def rule(self, rid: str, text: str, floor: int = 1):
@@ -65,6 +66,16 @@ class Check:
         else:
             self.findings.append(Finding(f"{self.prop}/{rid}", key or instance, where, detail or instance, path))
         return ok
+
+    def undecided(self, rid: str, instance: str, where: str, reason: str, key: str = None, fn=None):
+        """the rule could not recognise the construct it reasons about (shape changed): neither held nor violated.
+        Reported as an analysis error (exit 2), never as a violation."""
+        r = self.rules[rid]
+        r['instances'] += 1
+        if fn is not None:
+            self.functions.add(fn)
+        self.obligations.append({'rule': rid, 'instance': instance, 'where': where, 'status': 'UNDECIDED', 'detail': reason})
+        self.undecided_list.append(f"{self.prop}/{rid} {where} key={key or instance}: {reason}")
 
     def note(self, msg):
         self.notes.append(msg)
@@ -135,6 +146,10 @@ def finish(chk: Check, evidence_dir: str, seed: int = 0, write=True) -> int:
         for m in missed:
             print(f"ANALYSIS-ERROR property={chk.prop} vacuity guard: {m}")
         code = 2
+    if chk.undecided_list and not new:
+        for u in chk.undecided_list:
+            print(f"ANALYSIS-ERROR property={chk.prop} undecided (construct not recognised): {u}")
+        code = 2
     if chk.selftest and chk.selftest.get('missed'):
         for m in chk.selftest['missed']:
             print(f"ANALYSIS-ERROR property={chk.prop} self-test: {m}")
@@ -192,6 +207,7 @@ def finish(chk: Check, evidence_dir: str, seed: int = 0, write=True) -> int:
                 'known_findings_reported': [f.ident() for f, _ in listed],
                 'new_findings': [f.to_json() for f, _ in new],
                 'floors_missed': missed,
+                'undecided': list(chk.undecided_list),
             },
             'assumptions': [
                 'sources parse as the interpreter parses them',
